@@ -295,13 +295,10 @@ class World(EventDispatcher):
             f'Entity ID must be hashble, found {entity}, which is not')
 
         if immediate:
-            for component_type in self._entities[entity]:
-                self._components[component_type].discard(entity)
-
-                if not self._components[component_type]:
-                    del self._components[component_type]
-
-            del self._entities[entity]
+            # Remove components one by one, so that removal events are
+            # handled (on_remove)
+            for component_type in tuple(self._entities[entity]):
+                self.remove_component(entity, component_type)
 
         else:
             self._dead_entities.add(entity)
